@@ -154,7 +154,32 @@ impl PanicInfo {
         // Strip volatile parts (numbers in hashes etc. are kept: they are part of the message head).
         // The line number is left out so that unrelated edits of the file do not change the signature.
         let file = self.location.rsplit_once(':').map(|(f, _)| f).unwrap_or(&self.location);
-        format!("panic:{}:{}", file, head.replace('\n', " "))
+        // Volatile parts (generated hashes, numbers) are blanked so that one root cause is one signature.
+        let mut norm = String::new();
+        let cs: Vec<char> = head.replace('\n', " ").chars().collect();
+        let mut i = 0;
+        while i < cs.len() {
+            if cs[i].is_ascii_hexdigit() {
+                let mut j = i;
+                while j < cs.len() && cs[j].is_ascii_hexdigit() {
+                    j += 1;
+                }
+                let run: String = cs[i..j].iter().collect();
+                let boundary_before = i == 0 || !cs[i - 1].is_ascii_alphanumeric();
+                if run.len() >= 8 {
+                    norm.push('~');
+                } else if run.chars().all(|c| c.is_ascii_digit()) && boundary_before {
+                    norm.push('#');
+                } else {
+                    norm.push_str(&run);
+                }
+                i = j;
+            } else {
+                norm.push(cs[i]);
+                i += 1;
+            }
+        }
+        format!("panic:{}:{}", file, norm)
     }
 }
 
